@@ -67,7 +67,6 @@ Sums == {Row(i) : i \in 1..N1} \cup {Col(j) : j \in 1..N2}
         \cup {MatRow(C.out.avg, i) : i \in 1..N1} \cup {MatCol(C.out.integ, j) : j \in 1..N2}
 Unfit == (~Judging) \/ ~(Good /\ Shape) \/ (\A q \in Sums : SumFits(q))
          \/ PrintT(ToJson([case |-> ci, tag |-> "unfit", val |-> 0]))
-SumIs(q, t) == SumFits(q) => SumEq(q, t)
 
 
 Returns   == Check("Returns", C.out.err = "")
